@@ -598,6 +598,7 @@ def spawn_layer_in_subprocess(result, script_parts, options, features,
         errlines = stderr_buf[0].splitlines()
         erriter = iter(errlines)
         nfail = nerr = 0
+        header = None
         for index, line in enumerate(errlines):
             try:
                 # The number of skipped tests is an optional fourth field.
@@ -605,16 +606,16 @@ def spawn_layer_in_subprocess(result, script_parts, options, features,
                 nran, nfail_, nerr_, nskip = counts + [0] * (len(counts) == 3)
             except ValueError:
                 continue
-            else:
-                if len(errlines) - index - 1 < nfail_ + nerr_:
-                    # Not followed by all the names it announces: the
-                    # report was cut short (or this is not the header).
-                    # Never use partial data.
-                    continue
-                erriter = iter(errlines[index + 1:])
-                result.num_ran, nfail, nerr = nran, nfail_, nerr_
-                skipped.extend([(None, None)] * nskip)
-                break
+            # This is the header.  Only use it when all the names it
+            # announces follow: a report that was cut short must not be
+            # used as far as it goes.
+            if len(errlines) - index - 1 >= nfail_ + nerr_:
+                header = index
+            break
+        if header is not None:
+            erriter = iter(errlines[header + 1:])
+            result.num_ran, nfail, nerr = nran, nfail_, nerr_
+            skipped.extend([(None, None)] * nskip)
         else:
             errmsg = "Could not communicate with subprocess!"
             errors.append(("subprocess for %s" % layer_name, None))
